@@ -189,7 +189,10 @@ def kmu_case(run, ps, rng, n, fam, Nk, Nmu, poles, nthread, L):
     kedges = edge_family(rng, fam, n, L, Nk)
     muedges = np.linspace(0, 1, Nmu + 1) if Nmu != 3 else np.array([0.0, 0.31, 0.77, 1.0])
     w = rng.permutation(n * n * (n // 2 + 1)).reshape(n, n, n // 2 + 1).astype(np.float64) + 1.0
-    desc = dict(kernel='bin_kmu', n=n, edges=fam, Nk=Nk, Nmu=Nmu, poles=list(poles), nthread=nthread, L=L, kedges_over_kf=(kedges / (2 * np.pi / L))[:6].tolist())
+    zero_frac = [0.0, 0.0, 0.3, 0.0, 1.0, 0.0, 0.9][(n + Nk + Nmu + len(poles)) % 7]
+    if zero_frac:
+        w[rng.random(w.shape) < zero_frac] = 0.0  # a mode whose mesh value is exactly 0 (filtered / masked / empty mesh) is still a mode of its bin
+    desc = dict(kernel='bin_kmu', zero_fraction=zero_frac, n=n, edges=fam, Nk=Nk, Nmu=Nmu, poles=list(poles), nthread=nthread, L=L, kedges_over_kf=(kedges / (2 * np.pi / L))[:6].tolist())
     run.ev()
     run.progress(desc)
     with warnings.catch_warnings():
@@ -252,6 +255,8 @@ def kppi_case(run, ps, rng, n, fam, Nk, Npi, pimax_fac, nthread, L):
     kedges = edge_family(rng, fam, n, L, Nk)
     pimax = pimax_fac * dk * n / 2
     w = rng.permutation(n * n * (n // 2 + 1)).reshape(n, n, n // 2 + 1).astype(np.float64) + 1.0
+    if (n + Nk + Npi) % 4 == 1:
+        w[rng.random(w.shape) < [0.3, 1.0][(n + Nk) % 2]] = 0.0  # exact zeros are modes too
     desc = dict(kernel='bin_kppi', n=n, edges=fam, Nk=Nk, Npi=Npi, pimax_over_nyq=pimax_fac, nthread=nthread, L=L)
     run.ev()
     run.progress(desc)
